@@ -162,13 +162,21 @@ theorem decodeAmmo_ring {ρ} (reqs : List Char → Option ρ) (scs : List Scenar
     (∀ sc ∈ scs, ∃ s, expand reqs sc.requests [] = .ok s) ∧
     ring = scs.flatMap (fun sc =>
       List.replicate (effW scs.length sc / gcdList (scs.map (effW scs.length))) (scenarioOf reqs sc)) := by
+  have hneg : (scs.any fun sc => decide (sc.weight < 0)) = false := by
+    rw [List.any_eq_false]
+    intro sc hsc
+    have := hw sc hsc
+    simp; omega
+  unfold decodeAmmo at h
+  rw [hneg] at h
+  simp only [Bool.false_eq_true, if_false] at h
   match scs, hnd, hw, h with
   | [], _, _, h =>
-    simp [decodeAmmo, spreadNames, decodeLoop] at h
+    simp [spreadNames, decodeLoop] at h
     cases h
     simp
   | [s], _, _, h =>
-    simp only [decodeAmmo, spreadNames] at h
+    simp only [spreadNames] at h
     have h' : decodeLoop reqs [(s.name, 1)] [s] [] = .ok ring := by simpa using h
     obtain ⟨hall, hring⟩ := decodeLoop_ok reqs _ _ _ _ h'
     refine ⟨hall, ?_⟩
@@ -178,7 +186,6 @@ theorem decodeAmmo_ring {ρ} (reqs : List Char → Option ρ) (scs : List Scenar
   | a :: b :: rest, hnd, hw, h =>
     have hsp := spreadNames_two a b rest hw
     simp only at hsp
-    unfold decodeAmmo at h
     rw [hsp] at h
     simp only at h
     split at h
